@@ -23,6 +23,7 @@ import shutil
 import subprocess
 import sys
 import time
+import uuid
 from concurrent.futures import ThreadPoolExecutor
 
 from .. import tlc
@@ -161,7 +162,7 @@ DUMMY = dict(MaxSteps=1, MaxEpLen=1, Rewards={1}, Start=0, EpLimit=0, Warm=0, Bl
 def _tmp(name):
     d = os.path.join(tlc.OUT, "tmp")
     os.makedirs(d, exist_ok=True)
-    return os.path.join(d, f"{name}-{os.getpid()}-{int(time.time() * 1e6) % 10 ** 9}.json")
+    return os.path.join(d, f"{name}-{os.getpid()}-{uuid.uuid4().hex[:8]}.json")
 
 
 def validate(norm, tag="x05trace", timeout=900):
@@ -230,7 +231,7 @@ def _twin_key(tier, seed, labels):
     return h.hexdigest()[:24]
 
 
-def _twin_worker(name, tier, seed, labels, outdir, timeout=420, attempts=3):
+def _twin_worker(name, tier, seed, labels, outdir, timeout=300, attempts=3):
     from .. import sweep
 
     out = os.path.join(outdir, f"{name}.json")
